@@ -7,6 +7,8 @@ import ConduitModel.Driver.Live
 import ConduitModel.Driver.Errs
 import ConduitModel.Driver.Egress
 import ConduitModel.Driver.ErrPaths
+import ConduitModel.Driver.Registry
+import ConduitModel.Driver.Codec
 
 /-
 `driver <component>` : reads cases from stdin (one per line), writes one result line per case.
@@ -28,6 +30,21 @@ def component (name : String) : Option (String → String) :=
   | "errsite" => some errsiteLine
   | "egress" => some egressLine
   | "workernack" => some workernackLine
+  | "b64" => some b64Line
+  | "jsonstr" => some jsonstrLine
+  | "storedoc" => some storedocLine
+  | "golden" => some goldenLine
+  | "pre041" => some pre041Line
+  | "resume" => some resumeLine
+  | "pathclean" => some pathcleanLine
+  | "extract" => some extractLine
+  | "extractbig" => some extractLine
+  | "corruption" => some corruptionLine
+  | "install" => some installLine
+  | "hwmseq" => some hwmseqLine
+  | "hwmconc" => some hwmconcLine
+  | "atomicfile" => some atomicfileLine
+  | "atomickill" => some atomicfileLine
   | _ => none
 
 partial def loop (h : IO.FS.Stream) (out : IO.FS.Stream) (f : String → String) : IO Unit := do
